@@ -76,6 +76,22 @@ def gen_mm(mode, maxlen=None, depth=None, slots=None):
     return {"module": "Gen_MinMax", "cfg": "Gen_MinMax_%s.cfg" % mode, "overrides": ov, "family": "minmax", "embeddings": "1,1e-30,1e30"}
 
 
+MC_Q = {"module": "MC_Quantile", "cfg": "MC_Quantile.cfg", "overrides": {"MaxLen": ("6", "8")}, "timeout": 7200}
+MC_QS = {"module": "MC_Quantile", "cfg": "MC_Quantile_small.cfg"}
+TR_Q = {"module": "Trace_Quantile", "cfg": "Trace_Quantile.cfg", "family": "quantile", "args": {"n": ("1000", "20000")}, "timeout": 3600}
+
+
+def gen_q(which, emb, maxlen=None, alphabet=None, pset=None):
+    ov = {}
+    if maxlen:
+        ov["MaxLen"] = maxlen
+    if alphabet:
+        ov["Alphabet"] = alphabet
+    if pset:
+        ov["PSet"] = pset
+    return {"module": "Gen_Quantile", "cfg": "Gen_Quantile_%s.cfg" % which, "overrides": ov, "family": "quantile", "embeddings": emb, "timeout": 7200}
+
+
 PROPS = {
     "C01": {
         "title": "streaming mean/variance equal the exact statistics",
@@ -138,7 +154,7 @@ PROPS = {
     "C16": {
         "title": "empty, one-observation and constant samples follow the documented contract",
         "mc": [MC_W1, MC_C1, MC_SEQ, MC_MERGE],
-        "replay": [gen_mm("hist", depth=("3", "3")), gen_pair("Weighted", "seq", "E0:W0,E5:W2", maxlen=("4", "5")), gen_pair("Covariance", "seq", "E0:E0,E3:E5", maxlen=("4", "5")), gen_seq(ALLM, E05), gen_hist(ALLM, "E0")],
+        "replay": [gen_q("small", "E0"), gen_mm("hist", depth=("3", "3")), gen_pair("Weighted", "seq", "E0:W0,E5:W2", maxlen=("4", "5")), gen_pair("Covariance", "seq", "E0:E0,E3:E5", maxlen=("4", "5")), gen_seq(ALLM, E05), gen_hist(ALLM, "E0")],
         "rule": "every accessor of every type at n = 0..4 and on every constant sequence in the enumerated set, sentinel class "
                 "or exact value required",
         "bounds": {"quick": "L <= 5", "thorough": "L <= 7"},
@@ -156,7 +172,7 @@ PROPS = {
     "C18": {
         "title": "a serde round trip at any point is invisible",
         "mc": [MC_MERGE],
-        "replay": [gen_mm("hist", depth=("3", "4")), gen_pair("Weighted", "hist", "E0:W0,E5:W2", depth=("3", "4")), gen_pair("Covariance", "hist", "E0:E0,E3:E5", depth=("3", "4")), gen_hist(ALLM, "E0,E3,E5", depth=("5", "6"), slots=("{1}", "{1, 2}")), gen_hist(ALLM, "E0,E5")],
+        "replay": [gen_q("big", "E0,E5", maxlen=("7", "8")), gen_q("small", "E0"), gen_mm("hist", depth=("3", "4")), gen_pair("Weighted", "hist", "E0:W0,E5:W2", depth=("3", "4")), gen_pair("Covariance", "hist", "E0:E0,E3:E5", depth=("3", "4")), gen_hist(ALLM, "E0,E3,E5", depth=("5", "6"), slots=("{1}", "{1, 2}")), gen_hist(ALLM, "E0,E5")],
         "rule": "every history with checkpoints at every position; two real executions (with / without the JSON round trip) "
                 "compared bit for bit on every accessor",
         "bounds": {"quick": "depth <= 5 one slot, depth <= 4 two slots", "thorough": "depth <= 6 / 5"},
@@ -195,5 +211,40 @@ PROPS = {
                 "collect/extend ingestion on every add-only slot; finite tokens at scales 1, 1e-30, 1e30",
         "bounds": {"quick": "seq L <= 5; tree L <= 3; hist depth <= 3", "thorough": "seq L <= 6; tree L <= 4; hist depth <= 4"},
         "assumptions": ["-0.0 and 0.0 are the same number (the property says 'as numbers')"],
+    },
+    "C05": {
+        "title": "Quantile follows the P-square algorithm exactly once five observations are in",
+        "mc": [MC_Q],
+        "replay": [gen_q("big", "E0,E3,E5", maxlen=("7", "9")),
+                   {**gen_q("big", "E0", maxlen=("6", "8"), alphabet="GenAlphabetB", pset="GenPSetMore"), "skip": (True, False)},
+                   {**gen_q("big", "E0", maxlen=("6", "8"), alphabet="GenAlphabetC"), "skip": (True, False)}],
+        "trace": [TR_Q],
+        "rule": "every stream over {0,1,2,3} (ties everywhere) of length 5..L for p in {0,1/4,1/2,3/4,1}: positions and desired "
+                "positions exactly, heights and quantile() within 64*n*2^-53*max|x| of the exact-rational P-square run, tie rule of "
+                "DESIGN.md 4.2; plus long sorted/reverse/zig-zag/trending/duplicate/random streams whose recorded marker positions "
+                "are validated by TLC against the position skeleton of the specification",
+        "bounds": {"quick": "L <= 7; traces of 1,000 observations x 13 shapes", "thorough": "L <= 9, alphabets {0,1,2,5} {0,3,4,9}, p also 1/8 7/8; traces of 20,000"},
+        "assumptions": ["exact P-square heights overflow TLC's 32-bit integers beyond about 9 observations: long streams are validated on the integer skeleton and the C15 invariants only",
+                        "marker state is read from the public serde form (fields q, n, m)"],
+    },
+    "C07": {
+        "title": "with fewer than five observations Quantile returns the exact sample quantile",
+        "mc": [MC_QS],
+        "replay": [gen_q("small", "E0,E3,E5")],
+        "rule": "all 340 sequences of length 1..4 over {0,1,2,3} (every permutation of every multiset) x 31 values of p (sixteenths, "
+                "thirds, every k/n boundary +- 2^-20) and, in the harness, one ulp either side of every boundary; at boundaries that "
+                "are within rounding either adjacent convention is accepted",
+        "bounds": {"quick": "exhaustive", "thorough": "exhaustive"},
+        "assumptions": [],
+    },
+    "C15": {
+        "title": "quantile estimates stay inside the data range and bookkeeping is exact",
+        "mc": [MC_Q, MC_QS],
+        "replay": [gen_q("big", "E0,E3", maxlen=("7", "9")), gen_q("small", "E0")],
+        "trace": [TR_Q],
+        "rule": "len/is_empty/p()/NaN-only-when-empty/range/marker order after every observation of every enumerated stream and of "
+                "long recorded streams (validated by TLC as trace invariants); Quantile::new must panic for seven invalid p",
+        "bounds": {"quick": "L <= 7; traces of 1,000", "thorough": "L <= 9; traces of 20,000"},
+        "assumptions": ["marker state is read from the public serde form"],
     },
 }
